@@ -2,7 +2,7 @@
 import e2
 
 TIE = ["Nsq.Tie.Chan"]
-PROPS = ["Nsq.Props.C01", "Nsq.Props.C01Live", "Nsq.Props.C01Topic"]
+PROPS = ["Nsq.Props.C01", "Nsq.Props.C01Live", "Nsq.Props.C01Topic", "Nsq.Props.C01PumpLedger"]
 
 
 def run(ctx):
